@@ -13,7 +13,7 @@ import z3
 from harness.common import *
 
 
-def chain_src(d, vals=None, void=False, pad=0, ptr=False):
+def chain_src(d, vals=None, void=False, pad=0, ptr=False, nested=False):
     """helpers h1..hd (value-returning, or void when `void`); h_i = slot A (callee: marker | h_{i-1}) + slot B (marker | h_{i-2} | leaf);
     `pad` unrelated helpers are declared first, so the chain sits at function-arena indices >= pad (hundreds of functions);
     with `ptr` every function takes a `ptr<function, f32>` parameter that is threaded through all calls"""
@@ -29,7 +29,11 @@ def chain_src(d, vals=None, void=False, pad=0, ptr=False):
     for i in range(1, d + 1):
         a = (vals or {}).get(f'a{i}', f'ma{i}')
         b = (vals or {}).get(f'b{i}', f'mb{i}')
-        out.append(f'fn h{i}({P}) {{ {a}({A}); {b}({A}); }}' if void else f'fn h{i}({P}) -> u32 {{ let x = {a}({A}); let y = {b}({A}); return x + y; }}')
+        if nested and not void:
+            # every call of the helper sits inside control flow (no call at the top level of its body)
+            out.append(f'fn h{i}({P}) -> u32 {{ var x = 0u; var y = 0u; if (u.x > 0.0) {{ x = {a}({A}); loop {{ y = {b}({A}); break; }} }} return x + y; }}')
+        else:
+            out.append(f'fn h{i}({P}) {{ {a}({A}); {b}({A}); }}' if void else f'fn h{i}({P}) -> u32 {{ let x = {a}({A}); let y = {b}({A}); return x + y; }}')
     top = (vals or {}).get('top', f'h{d}')
     decl = 'var acc0: f32 = 0.0; ' if ptr else ''
     arg = '&acc0' if ptr else ''
@@ -116,11 +120,8 @@ def struct_src(d, vals=None):
 
 
 def subst_callee(c, fn, marker, term):
-    n = 0
-    for st in c.get(fn, 'body').fields[0].items:
-        if st.variant == 'Call' and st.fields[0] == marker:
-            st.fields[0] = term
-            n += 1
+    from harness.c03 import subst_calls
+    n = subst_calls(c, c.get(fn, 'body'), marker, term)            # call statements at any nesting depth
     for e in c.get(fn, 'expressions').fields[0].items:
         if e.variant == 'CallResult' and e.fields[0] == marker:
             e.fields[0] = term
@@ -139,11 +140,11 @@ def run(ctx):
                         'budget: call graph walk <= entries * (functions + call sites + 1); type walk <= variables * (types + member edges + 1): linear in the size of the shader']
     seen = {}
     # ------------------------------------------------------------------ (a) call graphs
-    families = [(False, 0), (True, 0), (False, 70)] + ([] if quick else [(True, 70), (False, 300)])
-    for void, pad in families:
-        key_cg = 'C20/call-graph-' + ('void' if void else 'value') + (f'-after-{pad}-functions' if pad else '')
-        sym_params = (not void and pad == 0)        # in this family the TYPE of the helpers' parameter is symbolic: f32 or ptr<function, f32>
-        src = chain_src(d, void=void, pad=pad, ptr=sym_params)
+    families = [(False, 0, False), (True, 0, False), (False, 70, False), (False, 0, True)] + ([] if quick else [(True, 70, False), (False, 300, False)])
+    for void, pad, nested in families:
+        key_cg = 'C20/call-graph-' + ('void' if void else 'value') + (f'-after-{pad}-functions' if pad else '') + ('-calls-inside-control-flow' if nested else '')
+        sym_params = (not void and pad == 0 and not nested)        # in this family the TYPE of the helpers' parameter is symbolic: f32 or ptr<function, f32>
+        src = chain_src(d, void=void, pad=pad, ptr=sym_params, nested=nested)
         dmp = S.dump(src)
         mj = dmp['module']
         fh = {f['name']: i for i, f in enumerate(mj['functions'])}
@@ -175,7 +176,7 @@ def run(ctx):
                 assume.append(tb == fh['leaf'])
         n_funcs, n_sites = len(mj['functions']) - pad, 2 * d + 2          # the unrelated helpers are never reached from an entry point
         budget = 2 * (n_funcs + n_sites + 1)
-        res = ctx.explore(f'global_shader_stages/{"void" if void else "value"}-chain-depth-{d}' + (f'-after-{pad}-functions' if pad else ''), lambda it: it.call('global_shader_stages', [mkref(module)]), assume=assume,
+        res = ctx.explore(f'global_shader_stages/{"void" if void else "value"}-chain-depth-{d}' + (f'-after-{pad}-functions' if pad else '') + ('-nested' if nested else ''), lambda it: it.call('global_shader_stages', [mkref(module)]), assume=assume,
                           env={'call_caps': {'update_stages': budget + 1}}, anchors=['global_shader_stages', 'update_stages', 'update_stages_blocks'], timeout_s=3000, max_paths=20000)
         worst = (0, None)
         for pc, kind, out, calls in res:
@@ -197,10 +198,10 @@ def run(ctx):
             m = ctx.witness(pc)
             inv = {v: k for k, v in fh.items()}
             shape = {k: inv[model_value(m, t)] for k, t in terms.items()}
-            rep, det = replay_chain(ctx, shape, d, void, pad, bool(sym_params and model_value(m, ptr_flag)))
+            rep, det = replay_chain(ctx, shape, d, void, pad, bool(sym_params and model_value(m, ptr_flag)), nested)
             ctx.report(key_cg, f'update_stages entered {">= " if kind == "cost" else ""}{n} times on a {n_funcs}-function / {n_sites}-call-site shader (linear budget {budget}); shape {shape}',
                        det, rep, det)
-        ctx.extra['call_graph_' + ('void' if void else 'value') + (f'_pad{pad}' if pad else '')] = {'paths': len(res), 'worst_update_stages_invocations': worst[0], 'budget': budget, 'functions': n_funcs, 'call_sites': n_sites}
+        ctx.extra['call_graph_' + ('void' if void else 'value') + (f'_pad{pad}' if pad else '') + ('_nested' if nested else '')] = {'paths': len(res), 'worst_update_stages_invocations': worst[0], 'budget': budget, 'functions': n_funcs, 'call_sites': n_sites}
         ctx.sample({'harness': 'chain', 'depth': d, 'worst invocations': worst[0], 'budget': budget})
         ctx.vacuity_witness('cost assertion reachable', res[0][0])
     ladder_family(ctx, seen, 6 if quick else 8)
@@ -291,16 +292,16 @@ def timed_gen(ctx, src, opts, limit=20):
     return time.time() - t0, okv
 
 
-def replay_chain(ctx, shape, d, void=False, pad=0, ptr=False):
+def replay_chain(ctx, shape, d, void=False, pad=0, ptr=False, nested=False):
     """the witness shape generalised to depth 24 (every level calls the previous one from both call sites)"""
     D = 24
     vals = {}
     for i in range(1, D + 1):
         vals[f'a{i}'] = f'h{i - 1}' if i > 1 else 'leaf'
         vals[f'b{i}'] = f'h{i - 1}' if i > 1 else 'leaf'
-    src = chain_src(D, vals, void, pad, ptr)
+    src = chain_src(D, vals, void, pad, ptr, nested)
     secs, okv = timed_gen(ctx, src, {})
-    base, _ = timed_gen(ctx, chain_src(D, None, void, pad, ptr), {})
+    base, _ = timed_gen(ctx, chain_src(D, None, void, pad, ptr, nested), {})
     det = {'wgsl': src, 'depth': D, 'lines': src.count('\n'), 'seconds': round(secs, 3), 'same_size_shader_without_calls_seconds': round(base, 3), 'generated': okv}
     return secs > max(1.0, 20 * base), det
 
